@@ -22,6 +22,10 @@ type vConn struct {
 
 func (c *vConn) Close() error { c.closed++; return nil }
 
+// a read that fails while the connection stays open (net/http aborts its background read with a
+// past deadline after every request on a keep-alive connection)
+func (c *vConn) Read(p []byte) (int, error) { return 0, vTempErr{} }
+
 type vListener struct {
 	accepted int
 	closed   bool
@@ -271,6 +275,7 @@ func verifC17_AcceptErrors() {
 	var conns [4]net.Conn
 	open := 0
 	want := verifChoose("connectionsWanted", capacity+1) + 1 // up to cap+1
+	readFails := verifBool("aReadFailsOnEveryOpenConnection")
 	errs := 0
 	live := 0 // accepted and not yet closed
 	var blocked bool
@@ -287,6 +292,11 @@ func verifC17_AcceptErrors() {
 			open++
 			live++
 			verifAssert(live <= capacity, "open-connections-never-exceed-the-cap")
+			if readFails {
+				// the connection stays open (and keeps its slot) after a failed read
+				var buf [1]byte
+				c.Read(buf[:])
+			}
 		}
 	}()
 	verifQuiesce()
